@@ -310,6 +310,7 @@ namespace Drv
 structure State where
   rosters : List (Nat × Roster) := []
   trees   : List (Nat × Tree) := []
+  shapes  : List (Nat × (Nat × List (Nat × Nat × Nat))) := []   -- per tree label: roster label, items
   ovl     : Ovl := {}
 
 def init : State := {}
@@ -388,6 +389,42 @@ def parseForestWith {F} (nil : F) (mk : Nat → Nat → F → F → Option F) :
       | none => none
   | _ + 1, _ + 1, [] => none
 
+/-- the first subtree of a pre-order item list, and what follows it -/
+def splitSub : (fuel : Nat) → List (Nat × Nat × Nat) → Option (List (Nat × Nat × Nat) × List (Nat × Nat × Nat))
+  | 0, _ => none
+  | _ + 1, [] => none
+  | fuel + 1, (a, b, ar) :: rest =>
+    let rec kids : Nat → List (Nat × Nat × Nat) → List (Nat × Nat × Nat) → Option (List (Nat × Nat × Nat) × List (Nat × Nat × Nat))
+      | 0, acc, l => some (acc, l)
+      | n + 1, acc, l =>
+        match splitSub fuel l with
+        | some (sub, l') => kids n (acc ++ sub) l'
+        | none => none
+    (kids ar [] rest).map fun (ks, l') => ((a, b, ar) :: ks, l')
+
+/-- what re-using the nodes of a tree amounts to: the pre-order node `k` gets one more child (a new
+leaf `leaf`, appended as its last child), or loses its last child with everything below -/
+def editItems (items : List (Nat × Nat × Nat)) (k : Nat) (leaf : Option (Nat × Nat)) : Option (List (Nat × Nat × Nat)) :=
+  match items.drop k with
+  | [] => none
+  | (a, b, ar) :: _ =>
+    match splitSub (items.length + 1) (items.drop k) with
+    | none => none
+    | some (sub, after) =>
+      let before := items.take k
+      match leaf with
+      | some (p, nid) => some (before ++ ((a, b, ar + 1) :: sub.drop 1) ++ [(p, nid, 0)] ++ after)
+      | none =>
+        if ar = 0 then none else
+        -- drop the last child: walk over the first ar-1 children
+        let rec skip : Nat → List (Nat × Nat × Nat) → List (Nat × Nat × Nat) → Option (List (Nat × Nat × Nat))
+          | 0, acc, _ => some acc
+          | n + 1, acc, l =>
+            match splitSub (items.length + 1) l with
+            | some (s1, l') => skip n (acc ++ s1) l'
+            | none => none
+        (skip (ar - 1) [] (sub.drop 1)).map fun kept => before ++ ((a, b, ar - 1) :: kept) ++ after
+
 /-- `a/b:arity` -/
 def parseItem (s : String) : Option (Nat × Nat × Nat) :=
   match s.splitOn ":" with
@@ -449,8 +486,39 @@ def step (st : State) (toks : List String) : State × String :=
       match parseForestWith TN.nil mk (its.length + 1) 1 its with
       | some (f, []) =>
         let t := newTree tid ro f
-        ({ st with trees := insert st.trees l t }, showTree t)
+        ({ st with trees := insert st.trees l t, shapes := insert st.shapes l (r.toNat?.getD 0, its) }, showTree t)
       | _ => (st, "bad-op")
+    | _, _, _, _ => (st, "bad-op")
+  -- `retree <label> <tree id> <old label> add <k> <position>` / `… prune <k>`: the TreeNode objects of
+  -- the old tree are re-used: node k (pre-order) gets a new leaf as last child / loses its last
+  -- child; NewTree over the same root.  The old label is gone (its nodes are the new tree's).
+  | "retree" :: l :: tid :: old :: edit =>
+    let leaf? : Option (Nat × Option Nat) :=
+      match edit with
+      | ["add", k, p] => do some ((← k.toNat?), some (← p.toNat?))
+      | ["prune", k] => do some ((← k.toNat?), none)
+      | _ => none
+    match l.toNat?, tid.toNat?, old.toNat?.bind (lookup st.shapes), leaf? with
+    | some l, some tid, some (rl, its), some (k, p?) =>
+      match lookup st.rosters rl with
+      | none => (st, "bad-op")
+      | some ro =>
+        let leaf : Option (Option (Nat × Nat)) :=
+          match p? with
+          | none => some none
+          | some p => (ro.list[p]?).map fun e => some (p, e.sid)
+        match leaf.bind (editItems its k) with
+        | none => (st, "bad-op")
+        | some its' =>
+          let mk := fun (pos nid : Nat) (c s : TN) =>
+            (ro.list[pos]?).map fun e => TN.node nid e.sid e.key pos 0 c s
+          match parseForestWith TN.nil mk (its'.length + 1) 1 its' with
+          | some (f, []) =>
+            let t := newTree tid ro f
+            let oldL := old.toNat?.getD 0
+            ({ st with trees := insert (erase st.trees oldL) l t, shapes := insert (erase st.shapes oldL) l (rl, its') },
+              showTree t)
+          | _ => (st, "bad-op")
     | _, _, _, _ => (st, "bad-op")
   -- `marshal-rt <tree label> <roster label | nil>`: Marshal, NewTreeFromMarshal
   | ["marshal-rt", l, r] =>
